@@ -37,6 +37,12 @@ TAGS = {
     3: 'rename_symbols statements differ from model', 4: 'rename_symbols parameter/rv names differ from model',
     5: 'remove_unused_parameters_and_rvs parameters differ from model',
     6: 'remove_unused_parameters_and_rvs random variables differ from model',
+    7: 'get_observation_expression differs from model',
+    8: 'get_individual_prediction_expression differs from model',
+    9: 'get_population_prediction_expression differs from model',
+    21: 'get_observation_expression does not evaluate like the model statements',
+    22: 'get_individual_prediction_expression does not evaluate like the statements at eps = 0',
+    23: 'get_population_prediction_expression does not evaluate like the statements at eps = eta = 0',
     11: 'make_declarative changes the value of a symbol',
     12: 'cleanup_model changes the value of a symbol it still defines',
     13: 'cleanup_model drops the definition of a dependent variable',
@@ -48,26 +54,36 @@ TAGS = {
     19: 'remove_unused_parameters_and_rvs removes a parameter or rv that a statement mentions',
     20: 'remove_unused_parameters_and_rvs raises',
 }
-CORR = (1, 2, 3, 4, 5, 6)
+CORR = (1, 2, 3, 4, 5, 6, 7, 8, 9)
 # oracle tag -> (correspondence tag that must be absent for the model to explain it,
 #                [(guard tag that must be present = guard conjunct false, finding id), ...])
 STALE = (201, 'C07-DECL-STALE-CAPTURE')
 CHAIN = (202, 'C07-CLEANUP-ALIAS-CHAIN')
 DROPDV = (205, 'C07-CLEANUP-DROPS-DV')
+FIRSTY = (207, 'C07-OBS-EXPR-FIRST-ASSIGNMENT')
 ORACLE = {
     11: (1, [STALE]), 12: (2, [STALE, CHAIN]), 13: (2, [DROPDV]), 14: (1, [STALE]), 15: (2, [STALE, CHAIN]),
     16: (3, []), 17: (3, []), 18: (1, []), 19: (5, []), 20: (5, []),
+    21: (7, [FIRSTY]), 22: (8, [FIRSTY]), 23: (9, [FIRSTY]),
 }
 
 
 # ------------------------------------------------------------------ generator
-def rexpr(rng, syms, depth):
+def rexpr(rng, syms, depth, family='pw', incond=False):
+    """Two disjoint families (CONVENTIONS.md, "sympy folds fully numeric relationals with REAL arithmetic"):
+    'tr' = transcendental functions allowed, no Piecewise; 'pw' = Piecewise with conditions, rational
+    arithmetic only.  The family is fixed per PROGRAM because the refactorings substitute across statements."""
     if depth == 0 or rng.random() < 0.3:
         if rng.random() < 0.2:
             return str(rng.choice([1, 2, 3]))
         return rng.choice(syms)
-    k = rng.choice(['add', 'add', 'mul', 'mul', 'div', 'pow', 'exp', 'log', 'pw', 'neg', 'sqrt', 'sub'])
-    a, b = rexpr(rng, syms, depth - 1), rexpr(rng, syms, depth - 1)
+    kinds = ['add', 'add', 'mul', 'mul', 'div', 'pow', 'neg', 'sub']
+    if family == 'tr':
+        kinds += ['exp', 'log', 'sqrt']
+    elif not incond:
+        kinds += ['pw', 'pw']
+    k = rng.choice(kinds)
+    a, b = rexpr(rng, syms, depth - 1, family, incond), rexpr(rng, syms, depth - 1, family, incond)
     if k == 'add':
         return f'({a} + {b})'
     if k == 'sub':
@@ -86,7 +102,7 @@ def rexpr(rng, syms, depth):
         return f'-({a})'
     if k == 'sqrt':
         return f'sqrt({a})'
-    c, d = rexpr(rng, syms, depth - 1), rexpr(rng, syms, depth - 1)
+    c, d = rexpr(rng, syms, depth - 1, family, True), rexpr(rng, syms, depth - 1, family, True)
     op = rng.choice(['<', '<=', '>', '>=', 'Eq', 'Ne'])
     cond = f'{op}({c}, {d})' if op in ('Eq', 'Ne') else f'({c}) {op} ({d})'
     return f'Piecewise(({a}, {cond}), ({b}, True))'
@@ -96,15 +112,16 @@ def gen_spec(rng):
     """A valid model: every symbol read is a parameter / rv / column or assigned earlier."""
     n = rng.choice([2, 3, 4, 5, 6, 7, 8, 10, 12, 14])
     style = rng.choice(['ssa', 'redefine', 'redefine', 'alias', 'alias', 'mixed', 'mixed'])
+    fam = rng.choice(['tr', 'pw'])
     stmts, defined = [], []
     ode_at = rng.randrange(1, n) if rng.random() < 0.3 and n >= 4 else None
     pool = VARS[:-1]
     for i in range(n):
         if i == ode_at:
             syms = LEAVES + defined
-            ode = {'ke': rexpr(rng, syms, 1), 'ka': rexpr(rng, syms, 1) if rng.random() < 0.5 else None,
-                   'lag': rexpr(rng, syms, 1) if rng.random() < 0.3 else None,
-                   'bio': rexpr(rng, syms, 1) if rng.random() < 0.3 else None}
+            ode = {'ke': rexpr(rng, syms, 1, fam), 'ka': rexpr(rng, syms, 1, fam) if rng.random() < 0.5 else None,
+                   'lag': rexpr(rng, syms, 1, fam) if rng.random() < 0.3 else None,
+                   'bio': rexpr(rng, syms, 1, fam) if rng.random() < 0.3 else None}
             stmts.append(['ODE', ode])
             defined.append('A_CENTRAL(t)')
             if ode['ka'] is not None:
@@ -127,7 +144,7 @@ def gen_spec(rng):
             cands = [d for d in defined if d != lhs] or LEAVES
             rhs = rng.choice(cands if rng.random() < 0.7 else LEAVES + cands)
         else:
-            rhs = rexpr(rng, syms, rng.choice([1, 1, 2, 2, 3]))
+            rhs = rexpr(rng, syms, rng.choice([1, 1, 2, 2, 3]), fam)
         stmts.append([lhs, rhs])
         if lhs not in defined:
             defined.append(lhs)
@@ -138,7 +155,12 @@ def gen_spec(rng):
         stmts.append(['Y', rng.choice(last)])                      # Y is a pure alias
     else:
         f = rng.choice(last)
-        stmts.append(['Y', f'{f} + {f}*EPS1' if rng.random() < 0.6 else rexpr(rng, LEAVES + defined, 2)])
+        stmts.append(['Y', f'{f} + {f}*EPS1' if rng.random() < 0.6 else rexpr(rng, LEAVES + defined, 2, fam)])
+    if rng.random() < 0.12:      # IF (...) Y = ...
+        # the condition reads only symbols that are never assigned, rational arithmetic only
+        cl = ['APGR', 'ETA1', 'ETA2', 'TH2', 'TH3']
+        c, d = rexpr(rng, cl, 1, 'pw', True), rexpr(rng, cl, 1, 'pw', True)
+        stmts.append(['Y', f'Piecewise(({rexpr(rng, LEAVES + defined, 2, fam, True)}, ({c}) > ({d})), (Y, True))'])
     fix = {}
     for th in THETAS:
         if rng.random() < 0.2:
@@ -160,7 +182,7 @@ def gen_spec(rng):
         else:
             vals = rng.sample(NEWNAMES, len(keys))
         renames.append([[k, v] for k, v in zip(keys, vals)])
-    return {'stmts': stmts, 'fix': fix, 'rvs': rv, 'renames': renames}
+    return {'stmts': stmts, 'fix': fix, 'rvs': rv, 'renames': renames, 'family': fam}
 
 
 class InvalidSpec(Exception):
@@ -303,10 +325,14 @@ def gen_points(rng, names_list, pins):
 def observe(spec, points_rng, mods=None):
     """Run the implementation on a spec; returns (coq case term, info).  mods: optional dict of replacement
     callables (used only by the sensitivity self-test)."""
-    from pharmpy.modeling import (cleanup_model, make_declarative, remove_unused_parameters_and_rvs,
-                                  rename_symbols)
+    from pharmpy.modeling import (cleanup_model, get_individual_prediction_expression,
+                                  get_observation_expression, get_population_prediction_expression,
+                                  make_declarative, remove_unused_parameters_and_rvs, rename_symbols)
     fn = {'make_declarative': make_declarative, 'cleanup_model': cleanup_model, 'rename_symbols': rename_symbols,
-          'remove_unused_parameters_and_rvs': remove_unused_parameters_and_rvs}
+          'remove_unused_parameters_and_rvs': remove_unused_parameters_and_rvs,
+          'get_observation_expression': get_observation_expression,
+          'get_individual_prediction_expression': get_individual_prediction_expression,
+          'get_population_prediction_expression': get_population_prediction_expression}
     fn.update(mods or {})
     names = ct.Names()
     for n in THETAS + OMEGAS + SIGMAS + ETAS + EPSS + COLS + ['t'] + AMOUNTS + VARS + NEWNAMES:
@@ -326,6 +352,7 @@ def observe(spec, points_rng, mods=None):
     rens = []
     for ren in spec.get('renames', []):
         d = {k: v for k, v in ren}
+        ren = list(d.items())        # a dict: the last value of a repeated key wins
 
         def conv(m2):
             return (stms_term(m2.statements, names), ct.lst([names.p(x) for x in m2.parameters.names]),
@@ -346,6 +373,9 @@ def observe(spec, points_rng, mods=None):
     unused = obs_of(lambda: fn['remove_unused_parameters_and_rvs'](model),
                     lambda m2: ct.pair(ct.lst([names.p(x) for x in m2.parameters.names]),
                                        ct.lst([names.p(x) for x in m2.random_variables.names])), info, 'unused')
+    extr = [obs_of(lambda k=k: fn[k](model), lambda r: cexpr(r, names), info, k.split('_')[1])
+            for k in ('get_observation_expression', 'get_individual_prediction_expression',
+                      'get_population_prediction_expression')]
     pins = {n: q for n, q in fixed}
     zero = set()
     for d in model.random_variables:
@@ -362,8 +392,10 @@ def observe(spec, points_rng, mods=None):
             + ct.lst([names.p(x) for x in model.parameters.names]) + " "
             + ct.lst([names.p(x) for x in model.random_variables.names]) + " "
             + ct.lst([rdist_term(d, names) for d in model.random_variables]) + "\n  " + unused + "\n  "
+            + ct.lst([names.p(x) for x in model.random_variables.epsilons.names]) + " "
+            + ct.lst([names.p(x) for x in model.random_variables.etas.names]) + "\n  " + "\n  ".join(extr) + "\n  "
             + ct.lst([sc.env(p, names) for p in pts]) + ")")
-    info['nqueries'] = 3 + len(rens)
+    info['nqueries'] = 6 + len(rens)
     info['shrunk'] = (len(model.parameters), len(model.random_variables.names))
     return term, info
 
@@ -383,6 +415,14 @@ def classify(ctx, spec, tags, info):
             kh[hit[0]] = kh.get(hit[0], 0) + 1
             if status == 'ok':
                 status = 'known'
+        elif explained and 208 in tags and t in (11, 12, 14, 15):
+            # a statement assigns a parameter / rv / column: outside the property's domain (the theorems'
+            # guards g_no_stale_capture / g_inline_ok are false there, tags 201 / 204)
+            if not ({201, 204} & tags):
+                ctx.violation(TAGS[t] + ' (shadowing program, guards true)', {'spec': spec, 'tags': sorted(tags)})
+                status = 'violation'
+            else:
+                ctx.coverage['out_of_domain_shadowing'] = ctx.coverage.get('out_of_domain_shadowing', 0) + 1
         else:
             ctx.violation(TAGS[t], {'spec': spec, 'tags': sorted(tags), 'tag_meaning': TAGS[t]})
             status = 'violation'
@@ -482,6 +522,9 @@ def run(ctx):
         'guard_rename_not_injective': sum(1 for v in verdicts for t in v if t == 203),
         'guard_inline_false': sum(1 for v in verdicts if 204 in v),
         'dv_is_alias': sum(1 for v in verdicts if 205 in v),
+        'dv_assigned_twice': sum(1 for v in verdicts if 207 in v),
+        'shadowing_programs': sum(1 for v in verdicts if 208 in v),
+        'family': {k: sum(1 for s in kept if s.get('family') == k) for k in ('tr', 'pw')},
         'reassigning_programs': sum(1 for s in kept if len({l for l, _ in s['stmts']}) < len(s['stmts'])),
     }
     ctx.coverage['samples'] = [{'spec': s, 'tags': v} for s, v in list(zip(kept, verdicts))[:4]]
